@@ -21,6 +21,7 @@ def payloads(tier, seed):
     n = 36 if tier == "quick" else 600
     out = [{"seed": seed, "index": i, "mode": "history"} for i in range(n)]
     out += [{"seed": seed, "index": i, "mode": "hashseed"} for i in range(4 if tier == "quick" else 40)]
+    out += [{"seed": seed, "index": i, "mode": "session"} for i in range(20 if tier == "quick" else 300)]
     return out
 
 def known_payloads():
@@ -53,6 +54,74 @@ F3_PROGRAM = [
     {"op": "request", "name": "tot", "kind": "comp", "comps": ["S", "I"], "save": True},
     {"op": "request", "name": "scaled", "kind": "func", "sources": ["tot"], "expr": {"*": [{"x": 0}, {"p": "d"}]}, "save": True},
 ]
+
+def session_task(W, payload, r, prog, out):
+    """correspondence of the session state-machine model (Summer.Model.Session): for a random call history — including runs that omit
+    parameters, defaults, explicit runners with frozen parameters — the model predicts, per call, error / the effective parameter
+    assignment of the main graph and of the derived outputs / the solver used; the real run must fail exactly when predicted and otherwise
+    equal (bitwise) a FRESH model run with the predicted assignment and solver."""
+    ops = prog["build"]; params = prog["params"]
+    # make sure there is a derived-output-only parameter and a shared one
+    names = ops[0]["comps"]
+    ops = ops + [{"op": "request", "name": "sess_tot", "kind": "comp", "comps": [names[0]], "save": True},
+                 {"op": "request", "name": "sess_fn", "kind": "func", "sources": ["sess_tot"], "expr": {"*": [{"x": 0}, {"p": "dd"}]}, "save": True}]
+    params = dict(params, dd="2/1")
+    S = fresh_session(W)
+    if not S.build(ops):
+        bump(out, "build_rejected"); return out
+    lp = S.L.send({"op": "input_params"})
+    keys = sorted(lp["params"])
+    hist = []; lops = []
+    solver0 = r.choice(["euler", "rk4"])
+    for step in range(r.randint(2, 6)):
+        kind = r.choice(["run", "run", "run_omit", "defaults", "rebuild"])
+        vals = {k: q(Fr(v) * r.choice([Fr(1), Fr(1, 2), Fr(3, 2)])) for k, v in params.items()}
+        if kind == "defaults":
+            sub = {k: vals[k] for k in keys if r.random() < 0.6}
+            hist.append(("defaults", sub)); lops.append({"k": "defaults", "d": [[k, v] for k, v in sub.items()]})
+            continue
+        p = dict(vals)
+        if kind == "run_omit" and keys:
+            for k in r.sample(keys, r.randint(1, min(2, len(keys)))): p.pop(k, None)
+        hist.append(("run", p, kind == "rebuild"))
+        lops.append({"k": "run", "p": [[k, v] for k, v in p.items()], "solver": solver0, "rebuild": kind == "rebuild"})
+    pred = S.L.send({"op": "session", "ops": lops}, raw=True)
+    if not pred.get("ok"):
+        out["diffs"].append({"stage": "S9", "what": "session model error", "model": pred, "prescribed": False}); return out
+    I = S.I
+    h = prog_hash(ops)
+    for (hop, lop, outc) in zip(hist, lops, pred["outcomes"]):
+        if hop[0] == "defaults":
+            I.model.set_default_parameters({k: float(Fr(v)) for k, v in hop[1].items()})
+            continue
+        rr = I.apply({"op": "run", "params": [[k, v] for k, v in hop[1].items()], "solver": solver0, "rebuild": hop[2]})
+        out["evals"] += 1
+        if ("ok" in outc) != rr["ok"]:
+            out["diffs"].append({"stage": "S9", "what": "session: raise / no-raise", "impl": rr.get("err", "ok"), "model": outc, "history": lops, "prescribed": False,
+                                 "task": {"module": "c11", "fn": "task", "payload": payload}, "program": ops})
+            break
+        if not rr["ok"]:
+            continue
+        eff = outc["ok"]
+        merged = dict(eff["main"]); conflict = False
+        for k, v in eff["do"]:
+            if k in merged and merged[k] != v: conflict = True
+            merged[k] = v
+        if conflict:
+            bump(out, "split_assignment_skipped"); continue
+        F = build(ops)
+        fr = F.apply({"op": "run", "params": [[k, v] for k, v in merged.items()], "solver": eff["solver"], "rebuild": False})
+        if not fr["ok"]:
+            out["diffs"].append({"stage": "S9", "what": "session: fresh run with the predicted assignment fails", "model": outc, "history": lops, "prescribed": False}); break
+        if not res_equal(rr, fr):
+            out["diffs"].append({"stage": "S9", "what": "session: run differs from a fresh run with the predicted effective assignment", "model": outc, "history": lops,
+                                 "prescribed": False, "task": {"module": "c11", "fn": "task", "payload": payload}, "program": ops})
+            break
+        out["cases"].append(h + ":session:" + str(len(out["cases"])))
+    if payload["index"] == 0:
+        out["sample"] = {"session_history": lops, "predicted": pred["outcomes"]}
+    return out
+
 
 def task(W, payload):
     mode = payload["mode"]
@@ -96,6 +165,8 @@ def task(W, payload):
         if payload["index"] == 0:
             out["sample"] = {"hashseeds": list(digs), "digests": {k: v[0] for k, v in digs.items()}}
         return out
+    if mode == "session":
+        return session_task(W, payload, r, prog, out)
     # ---- history
     I = build(ops)
     if I is None:
